@@ -365,7 +365,7 @@ def r_mag(E):
                     "R-MAG", key,
                     f"{q} takes a bare number out of `{norm(recv)[:70]}` while its unit is whatever the input was typed "
                     f"in: the result changes when the same quantity is expressed in another unit (GB/MB, years/days…)",
-                    rel, n.lineno, q))
+                    rel, n.lineno, q, {"clauses": ["all"] + (["operators"] if rel.endswith("explainable_objects.py") else [])}))
             else:
                 counts[verdict.split(" (")[0][:40]] = counts.get(verdict.split(" (")[0][:40], 0) + 1
                 if len(res.samples) < 8:
@@ -405,7 +405,8 @@ def r_mag(E):
                 res.findings.append(Finding(
                     "R-MAG", f"{rel}:{q} :: {norm(n)[:90]} call-site unit",
                     f"{q} rounds `{norm(recv)[:60]}` whose unit is not statically fixed: ceil/round of 0.5 TB and of "
-                    f"500 GB differ, so the result depends on the unit the input was typed in", rel, n.lineno, q))
+                    f"500 GB differ, so the result depends on the unit the input was typed in", rel, n.lineno, q,
+                    {"clauses": ["all"] + (["operators"] if rel.endswith("explainable_objects.py") else [])}))
             elif len(res.samples) < 12:
                 res.samples.append({"site": f"{rel}:{int(n.lineno)} {q}", "rounding": norm(n)[:70], "receiver_unit": u[1]})
     res.breakdown = counts
